@@ -113,13 +113,35 @@ inductive Outcome | ok | duplicate (id : Nat) | removed | noObject
 /-- `if a.ID == 0 { a.ID = m.idCount }` -/
 def Acc.autoId (a : Acc) (n : Nat) : Acc := if a.id = 0 then { a with id := n } else a
 
-/-- AddAccessory(pool[k]) -/
+/-- `for m.as[m.idCount] != nil { m.idCount++ }`: the first number from `n` on that is no key of the map (at most
+    `fuel` steps — with `fuel` > the number of keys the result is free: `nextFree_free`) -/
+def nextFree (keys : List Nat) : Nat → Nat → Nat
+  | 0, n => n
+  | fuel+1, n => if keys.contains n then nextFree keys fuel (n + 1) else n
+
+/-- AddAccessory(pool[k]). F54 repair: an automatic id is the next number that no accessory of the container has (ids
+    can also be given explicitly); before it the counter alone decided, and the accessory was refused when an explicit id
+    had taken that number (`addOld`). -/
 def Container.add (m : Container) (k : Nat) : Container × Outcome :=
   match m.pool[k]? with
   | none => (m, .noObject)
   | some a =>
+    let n := nextFree m.keys (m.keys.length + 1) m.idCount
+    let a2 := a.updateIDs.autoId n
+    let cnt := if a.id = 0 then n + 1 else m.idCount    -- `m.idCount++` only for an automatic id
+    let pool' := m.pool.set k a2
+    if m.keys.contains a2.id then
+      ({ m with pool := pool', idCount := cnt }, .duplicate a2.id)
+    else
+      ({ pool := pool', accs := m.accs ++ [k], keys := a2.id :: m.keys, idCount := cnt }, .ok)
+
+/-- AddAccessory before the F54 repair -/
+def Container.addOld (m : Container) (k : Nat) : Container × Outcome :=
+  match m.pool[k]? with
+  | none => (m, .noObject)
+  | some a =>
     let a2 := a.updateIDs.autoId m.idCount
-    let cnt := if a.id = 0 then m.idCount + 1 else m.idCount    -- `m.idCount++` only for an automatic id
+    let cnt := if a.id = 0 then m.idCount + 1 else m.idCount
     let pool' := m.pool.set k a2
     if m.keys.contains a2.id then
       ({ m with pool := pool', idCount := cnt }, .duplicate a2.id)
